@@ -10,6 +10,7 @@ THEOREMS = [
     "C14_wccn_identity",
     "C14_lower_pos_diag",
     "C14_wccn_label_invariance",
+    "C14_exec_eq_spec",
 ]
 CORR_OPS = ["whiten:fit_numpy", "whiten:fit_dask", "whiten:transform", "wccn:fit_numpy", "wccn:fit_dask", "wccn:transform", "lapack:chol_contract"]
 RULE = ("full-rank data sets (N >= 3 D, condition number <= 1e3) x labelings (0..K-1, shifted, negative, non-contiguous, unsorted), "
@@ -32,6 +33,8 @@ def data(ctx, i):
     # features far from the origin (|mean| / std up to 1e6): the identities may not depend on where the origin is
     offset = float(r.choice([0.0, 0.0, 1e3, 1e5, 1e6])) * r.choice([-1.0, 1.0], size=D)
     X = X + offset
+    if float(np.max(np.abs(offset))) == 0.0:
+        X = gen.maybe_int(r, X * 4.0, p=0.2, floats=False)  # integer-typed feature arrays (kept full rank by the spread)
     perm = r.permutation(N)
     X, lab = X[perm], lab[perm]
     kind = ["zero_based", "shifted", "negative", "noncontiguous", "unsorted"][i % 5]
@@ -119,9 +122,12 @@ def oracle(sc):
     y = list(sc["y"])
     D = X.shape[1]
     for name, xin in (("numpy", X), ("dask", as_dask(dict(sc, X=X)))):
-        w = Whitening()
+        pinv = bool(sc.get("pinv", False))  # on full-rank data the pseudo-inverse option must not change anything
+        w = Whitening(pinv=pinv)
         r = core.impl(lambda: w.fit(xin))
         if isinstance(r, core.ImplError):
+            if pinv and name == "dask" and r.kind in ("AttributeError", "NotImplementedError", "TypeError"):
+                continue  # Dask has no pinv: the option is only available for NumPy input
             return {"sig": "whitening-fit-raises", "what": f"{name}: {r!r}"}
         W = np.asarray(w.weights, dtype=float)
         Y = np.asarray(w.transform(X), dtype=float)
@@ -129,9 +135,11 @@ def oracle(sc):
             return {"sig": "whitened-covariance-not-identity", "what": f"{name}: cov = {np.cov(Y.T).tolist()}"}
         if np.any(np.abs(np.triu(W, 1)) > 0) or np.any(np.diag(W) <= 0):
             return {"sig": "projection-not-lower-triangular-positive", "what": f"whitening {name}"}
-        c = WCCN()
+        c = WCCN(pinv=pinv)
         r = core.impl(lambda: c.fit(xin, y))
         if isinstance(r, core.ImplError):
+            if pinv and name == "dask" and r.kind in ("AttributeError", "NotImplementedError", "TypeError"):
+                continue
             return {"sig": "wccn-fit-raises", "what": f"{name}, labels {sorted(set(y))}: {r!r}"}
         Wc = np.asarray(c.weights, dtype=float)
         Yc = np.array(c.transform(X), dtype=float)
@@ -144,6 +152,16 @@ def oracle(sc):
             return {"sig": "wccn-within-class-scatter-not-identity", "what": f"{name}, labels {sorted(set(y))}: Sw/K = {(Sw / len(set(y))).tolist()}"}
         if np.any(np.abs(np.triu(Wc, 1)) > 0) or np.any(np.diag(Wc) <= 0):
             return {"sig": "projection-not-lower-triangular-positive", "what": f"wccn {name}"}
+        # an estimator object that was fitted on other data before must give what a fresh one gives
+        decoy = np.random.default_rng(7).normal(size=(2 * D + 6, D)) @ (np.eye(D) * 3.0) + 5.0
+        dlab = [int(k % 2) + 100 for k in range(len(decoy))]
+        w3, c3 = Whitening(pinv=pinv), WCCN(pinv=pinv)
+        core.impl(lambda: w3.fit(decoy))
+        core.impl(lambda: c3.fit(decoy, dlab))
+        r3 = core.impl(lambda: (w3.fit(xin), c3.fit(xin, y)))
+        if isinstance(r3, core.ImplError) or not (np.array_equal(np.asarray(w3.weights), W) and np.array_equal(np.asarray(c3.weights), Wc)
+                                                  and np.array_equal(np.asarray(w3.input_subtract), np.asarray(w.input_subtract))):
+            return {"sig": "refit-differs-from-fresh-estimator", "what": f"{name}: a Whitening / WCCN object fitted on other data first gives a different projection: {r3!r}"}
         if name == "numpy":
             # rename the classes 0..K-1 in order of first appearance: same partition
             first = {}
@@ -160,12 +178,13 @@ def search(ctx):
     fails, seen = [], set()
     for i in range(ctx.budget(20, 200)):
         sc = data(ctx, i)
-        ctx.count("search:" + sc["kind"])
+        sc["pinv"] = bool(ctx.rng.random() < 0.3)
+        ctx.count("search:" + sc["kind"] + (":pinv" if sc["pinv"] else ""))
         ctx.case(["s", core.tolist(sc["X"]), sc["y"]], nontrivial=True)
         f = oracle(sc)
         if f and f["sig"] not in seen:
             seen.add(f["sig"])
-            f["input"] = {k: sc[k] for k in ("N", "D", "X", "y", "kind", "sizes")}
+            f["input"] = {k: sc[k] for k in ("N", "D", "X", "y", "kind", "sizes", "pinv")}
             fails.append(f)
     return fails
 
